@@ -221,6 +221,18 @@ func Split(amount uint64) []uint64 {
 	return out
 }
 
+// SplitKeyed splits amount into denominations the keysets really have keys for (2^0 .. 2^59):
+// everything above 2^59 is made of several 2^59 outputs.
+func SplitKeyed(amount uint64) []uint64 {
+	var out []uint64
+	const top = uint64(1) << 59
+	for amount >= top {
+		out = append(out, top)
+		amount -= top
+	}
+	return append(out, Split(amount)...)
+}
+
 func (w *World) NewOutput(amount uint64, id, secret string) *HOutput {
 	if secret == "" {
 		secret = randHex(32)
